@@ -48,3 +48,8 @@ claim('C23', 'model_checking',
       'PARTIAL (item identity / name-handling kernel only): CrossHair explores all pairs of a pool of item names incl. case variants and item classes: equality symmetric and case-insensitive, equal items hash equal, container membership agrees with equality, string comparison, scope_name/local_name and DuplicateKernel naming under case permutation.',
       'Graph, processing order and generated code under case permutation are NOT claimed (no value domain).',
       'CrossHair symbolic execution over pool-indexed item names', 'E-XH', 'DESIGN.md#C23')
+TV_NOTE = 'Trusted: the symbolic Fortran interpreter vlib/fsmt/interp.py + vlib/fsmt/sem.py (self-validated against gfortran), z3, gfortran for replay. Bounds: fixed small extents per size instance, bounded loop unwinding with unwinding assertion, ints |v|<=6, reals first as uninterpreted arithmetic (holds for any FP) then exact reals. Template families are finite and listed in vlib/corpus.'
+claim('C30', 'translation_validation',
+      'For every template of a stated family of array-section assignments (overlapping, strided, negative stride, shifted lower bounds, 2-D, masked, nested in loops/branches) and every transformation variant that keeps the declared index space, the real transformation is applied and z3 decides, over all input values at the instance sizes, whether original and transformed routine can differ in any array element (or trap); models are replayed with gfortran -fcheck=bounds.',
+      TV_NOTE + ' Outside: shift_to_zero_indexing / invert_array_indices / flatten_arrays (change of index space).',
+      'translation validation: symbolic interpretation of original and transformed IR + SMT equivalence (z3), compiler replay', 'E-SMT', 'DESIGN.md#C28-C34')
